@@ -84,6 +84,14 @@ theorem map_ranges_as_reviewed : Sekai.Gen.Ambient.mapRanges = [
     ("x/gov/types/poll_vote.go", "CalculatedPollVotes.ProcessResult", "c.votes", "3470010cd733"),
     ("x/gov/types/poll_vote.go", "CalculatedPollVotes.ProcessResult", "c.votes", "4698a9ea87a1")] := by decide +kernel
 
+/-- the two helpers whose OUTPUT ORDER follows Go's map order (`WrapInfos` turns a map into a list, `AllExecutionFees`
+lists a map) were accepted above because nothing in consensus code calls them (a CLI helper and a query): that premise
+is an obligation of its own. `mapRangeCallers` lists, by callee name, every call in consensus code of a function that
+ranges over a map. -/
+theorem order_sensitive_map_helpers_off_consensus_path :
+    Sekai.Gen.Ambient.mapRangeCallers.filter (fun r => r.1 == "WrapInfos" || r.1 == "AllExecutionFees") = [] := by
+  decide +kernel
+
 /-- protobuf messages with map fields. Genesis / query messages are not stored by block processing; the five
 custody messages ARE stored by the custody keeper and gogoproto writes their entries in Go map order: two replicas
 can store different bytes for the same record (recorded finding `C01/custody/map-marshal-order`). -/
